@@ -4,12 +4,25 @@ Line-protocol driver + implementation-output checker for the C08 model (`txfee`)
 One op line = one signed transaction (see harness/txfee_test.go for the grammar):
 `tx floor=<coin> conv=<denom>:<rate> sched=<type:coin:rcp:bips|…> payfee=<coin|-> fee=<coins>
  gas=<n> balP= balG= balX= fg=<0|1> allow=<-|unl|coins> auth=<0|1> sig=<ok|bad> force=<0|1>
- body=<tok;tok;…> [re=1 floor2=<coin> conv2=<denom>:<rate> sched2=<…>] obs=<c><d>[<r>]`
+ body=<tok;tok;…> [gov=<proposals> gv=<r|v>] [re=1 [floor2=<coin> conv2=<denom>:<rate> sched2=<…>]
+ [gov2=<proposals>]] obs=<c><d>[<r>]`
+
+`floor`/`conv`/`sched` is the configuration the chain was set up with (genesis / upgrade: written
+straight into the store).  `gov=`: governance proposals (`/`-separated, oldest first; the messages
+of one proposal `+`-separated: `rate:<n>`, `denom:<d>`, `add:<type>:<coin>:<rcp|->:<bips|->`,
+`upd:…`, `rm:<type>`) that pass and are executed through the REAL msgfees message handlers before
+the transaction arrives (`gv=r`: the way gov's EndBlocker runs them; `gv=v`: a whole proposal life
+— signed MsgSubmitProposal + MsgVote, voting period, EndBlocker).
 
 `re=1`: the transaction's life spans a fee-schedule change — admitted by `CheckTx(New)` under
-the first configuration, then a block that does not contain it is committed and sets the second
-configuration (`floor2`/`conv2`/`sched2`), then `CheckTx(Recheck)`, then execution (when still in
-the mempool, or forced) under the second configuration.
+the first configuration, then a block that does not contain it is committed and changes it
+(`floor2`/`conv2`/`sched2` when present: a straight rewrite, the only way the floor price can
+change; then the proposals `gov2=`), then `CheckTx(Recheck)`, then execution (when still in the
+mempool, or forced) under the second configuration.
+
+Output: `gov=<ok|fail/…> cfg=<floor;convdenom:rate;schedule>` (each proposal's fate and the
+params + schedule READ BACK from the keeper when the transaction arrives), the same after the
+second change (`gov2= cfg2=`), then the results and balance deltas.
 -/
 import PvModel.TxfeeSpec
 import PvModel.Util
@@ -19,9 +32,11 @@ namespace PvModel.Txfee
 open PvModel
 
 structure Op where
-  cfg : Cfg
-  re : Bool        -- a committed block changes the configuration to `cfg2` and the tx is rechecked
-  cfg2 : Cfg
+  cfg0 : Cfg                     -- what the chain was set up with
+  gov : List (List GovMsg)       -- proposals executed before the tx arrives
+  re : Bool        -- a committed block changes the configuration and the tx is rechecked
+  direct2 : Option Cfg           -- … by a straight rewrite of params + schedule (the only way the floor changes)
+  gov2 : List (List GovMsg)      -- … and/or by proposals
   tx : Tx
   st : St
   fg : Bool
@@ -100,6 +115,24 @@ def parseSched (s : String) : Option (List (String × MsgFee)) :=
       pure (t, { fee := coin, recipient := dash r, bips := bips })
     | _ => none
 
+def parseGovMsg (s : String) : Option GovMsg :=
+  let bips? (b : String) : Option (Option Nat) := if b = "-" then some none else b.toNat?.map some
+  match s.splitOn ":" with
+  | ["rate", n] => n.toNat?.map .rate
+  | ["denom", d] => some (.denom d)
+  | ["add", t, c, r, b] => do pure (.add t (← parseCoin? c) (dash r) (← bips? b))
+  | ["upd", t, c, r, b] => do pure (.upd t (← parseCoin? c) (dash r) (← bips? b))
+  | ["rm", t] => some (.rm t)
+  | _ => none
+
+def parseGov (s : String) : Option (List (List GovMsg)) :=
+  if s = "-" ∨ s = "" then some []
+  else (s.splitOn "/").mapM fun p => (p.splitOn "+").mapM parseGovMsg
+
+/-- The model's configuration when the tx arrives / after the committed change. -/
+def Op.cfg (op : Op) : Cfg := (applyGov op.cfg0 op.gov).1
+def Op.cfg2 (op : Op) : Cfg := if op.re then (applyGov (op.direct2.getD op.cfg) op.gov2).1 else op.cfg
+
 def parseOp (ws : List String) : Option Op := do
   guard (ws.head? = some "tx")
   let floor ← (kv ws "floor") >>= parseCoin?
@@ -129,17 +162,19 @@ def parseOp (ws : List String) : Option Op := do
   let orc : Bool := (obs.drop 2).head? = some 'g'
   let re := kv ws "re" = some "1"
   let cfg1 : Cfg := { floor := floor, convDenom := convD, nhashPerUsdMil := convR, sched := sched }
-  let cfg2 ← if re then do
+  let gov ← parseGov ((kv ws "gov").getD "-")
+  let gov2 ← if re then parseGov ((kv ws "gov2").getD "-") else pure []
+  let direct2 : Option Cfg ← if re ∧ (kv ws "floor2").isSome then do
       let floor2 ← (kv ws "floor2") >>= parseCoin?
       let (convD2, convR2) ← match ((kv ws "conv2").getD "").splitOn ":" with
         | [d, r] => r.toNat?.map fun r => (d, r)
         | _ => none
       let sched2 ← parseSched ((kv ws "sched2").getD "-")
-      pure ({ floor := floor2, convDenom := convD2, nhashPerUsdMil := convR2, sched := sched2 } : Cfg)
-    else pure cfg1
+      pure (some ({ floor := floor2, convDenom := convD2, nhashPerUsdMil := convR2, sched := sched2 } : Cfg))
+    else pure none
   let l0 : Ledger := (Ledger.entries "P" balP) ++ (Ledger.entries "G" balG) ++ (Ledger.entries "X" balX)
   pure {
-    cfg := cfg1, re := re, cfg2 := cfg2,
+    cfg0 := cfg1, gov := gov, re := re, direct2 := direct2, gov2 := gov2,
     tx := { fee := fee, gas := gas, payer := "P", granter := if fg then some "G" else none,
             top := acc.top, steps := acc.steps, sigOk := sig,
             oogCheck := oc, oogAnte := od = some 'a', oogMsgs := od = some 'm', oogRecheck := orc },
@@ -156,9 +191,27 @@ def showAllow : Allow → String
   | .unl => "unl"
   | .lim c => showCoins (Coins.canon c)
 
+def insertByTyp (e : String × MsgFee) : List (String × MsgFee) → List (String × MsgFee)
+  | [] => [e]
+  | x :: rest => if e.1 < x.1 then e :: x :: rest else x :: insertByTyp e rest
+
+/-- Canonical rendering of params + schedule (the harness prints what it reads back from the keeper). -/
+def showCfg (c : Cfg) : String :=
+  let ents := (c.sched.foldr insertByTyp []).map fun (t, f) =>
+    s!"{t}:{showCoin f.fee}:{if f.recipient = "" then "-" else f.recipient}:{f.bips}"
+  let sch := if ents.isEmpty then "-" else "|".intercalate ents
+  s!"{showCoin c.floor};{c.convDenom}:{c.nhashPerUsdMil};{sch}"
+
+def showFates (bs : List Bool) : String :=
+  if bs.isEmpty then "-" else "/".intercalate (bs.map fun b => if b then "ok" else "fail")
+
 /-- The model's output line. -/
 def render (op : Op) : String :=
   let lf := life op.cfg op.cfg2 op.re op.force op.tx op.st
+  let gov1 := s!"gov={showFates (applyGov op.cfg0 op.gov).2} cfg={showCfg op.cfg} "
+  let gov2 := match lf.recheck with
+    | none => " gov2=- cfg2=-"
+    | some _ => s!" gov2={showFates (applyGov (op.direct2.getD op.cfg) op.gov2).2} cfg2={showCfg op.cfg2}"
   let chg (s1 : St) : String :=
     s!"{showCoins (delta op.st.ledger s1.ledger "P")}/{showCoins (delta op.st.ledger s1.ledger "G")}"
   let check := match lf.check with | none => "ok" | some e => e.toString
@@ -166,7 +219,7 @@ def render (op : Op) : String :=
     | none => "skip"
     | some none => "ok"
     | some (some e) => e.toString
-  let head := s!"check={check} cchg={chg lf.checkSt} recheck={recheck} rchg={chg lf.recheckSt}"
+  let head := s!"{gov1}check={check} cchg={chg lf.checkSt} recheck={recheck} rchg={chg lf.recheckSt}{gov2}"
   match lf.run with
   | none =>
     s!"{head} deliver=skip seq=0 allow={showAllow op.st.allow}" ++
@@ -182,6 +235,10 @@ def render (op : Op) : String :=
 /-! ### Checker: the property's conclusion on the implementation's observed output -/
 
 structure Observed where
+  gov : List Bool
+  cfg : String
+  gov2 : List Bool
+  cfg2 : String
   check : String
   cchg : String
   recheck : String
@@ -197,7 +254,10 @@ def parseObserved (s : String) : Option Observed := do
     let v ← kv ws r
     let cs ← parseCoins? v
     pure (r, Coins.canon cs)
-  pure { check := ← kv ws "check", cchg := ← kv ws "cchg",
+  let fates (s : String) : List Bool := if s = "-" then [] else (s.splitOn "/").map (· == "ok")
+  pure { gov := fates ((kv ws "gov").getD "-"), cfg := (kv ws "cfg").getD "-",
+         gov2 := fates ((kv ws "gov2").getD "-"), cfg2 := (kv ws "cfg2").getD "-",
+         check := ← kv ws "check", cchg := ← kv ws "cchg",
          recheck := (kv ws "recheck").getD "skip", rchg := (kv ws "rchg").getD "-/-",
          deliver := ← kv ws "deliver",
          seq := ← kv ws "seq", allow := ← kv ws "allow", deltas := ds }
@@ -207,27 +267,40 @@ def sendsDelta (sends : List (Addr × Addr × Coins)) (a : Addr) : Coins :=
   sends.foldl (fun acc (f, t, cs) =>
     acc ++ (if f = a then Coins.neg cs else []) ++ (if t = a then cs else [])) []
 
+/-- The REFERENCE configuration (TxfeeSpec "The configuration in force"): what the chain was set up
+with, changed only in what the passed proposals' messages name; each proposal's fate as OBSERVED. -/
+def refCfgA (op : Op) (o : Observed) : Cfg := refGov op.cfg0 op.gov o.gov
+def refCfgB (op : Op) (o : Observed) : Cfg := refGov (op.direct2.getD (refCfgA op o)) op.gov2 o.gov2
+
 def allDenoms (op : Op) (o : Observed) : List Denom :=
-  (Coins.denoms op.tx.fee ++ [op.cfg.floor.1, op.cfg2.floor.1] ++
-    (stepsIncurred op.cfg op.tx.steps).map (·.denom) ++ (stepsIncurred op.cfg2 op.tx.steps).map (·.denom) ++
+  let cA := refCfgA op o
+  let cB := refCfgB op o
+  (Coins.denoms op.tx.fee ++ [cA.floor.1, cB.floor.1] ++
+    (stepsIncurred cA op.tx.steps).map (·.denom) ++ (stepsIncurred cB op.tx.steps).map (·.denom) ++
     (op.sends.flatMap fun s => Coins.denoms s.2.2) ++ (o.deltas.flatMap fun d => Coins.denoms d.2)).eraseDups
 
+/-- The floor-price field of a `cfg=` rendering. -/
+def dumpFloor (s : String) : String := (s.splitOn ";").headD ""
+
 /-- `ok`, `fail:<clause>`, or `-` (nothing to check).  Everything is judged on the
-implementation's OBSERVED results (`check=`, `recheck=`, `deliver=`, balance deltas); the model's
-own opinion of what CheckTx should have said is not consulted. -/
-def verdict (op : Op) (o : Observed) : String :=
+implementation's OBSERVED results (`check=`, `recheck=`, `deliver=`, balance deltas) against the
+REFERENCE configuration; neither the model's opinion of what CheckTx should have said nor the
+params the implementation has in its store by then are consulted for what the tx owes. -/
+def verdictTx (op : Op) (o : Observed) : String :=
   let src := op.tx.from
   -- was the committed schedule change + recheck part of this transaction's life?
   let rechecked : Bool := op.re && o.check == "ok"
+  let cfgA := refCfgA op o
+  let cfgB := refCfgB op o
   -- the configuration in force when the transaction is executed
-  let cfgX := if rechecked then op.cfg2 else op.cfg
+  let cfgX := if rechecked then cfgB else cfgA
   let base := baseFee cfgX.floor op.tx.gas
   let is := stepsIncurred cfgX op.tx.steps
   let ds := allDenoms op o
   let obs (a : Addr) : Coins := (o.deltas.find? (·.1 = a)).map (·.2) |>.getD []
   -- "those the mempool check rejects must be rejected": what arrival / recheck had to demand
-  let underNew : Bool := !(admissible op.cfg op.tx.fee op.tx.gas op.tx.top ds)
-  let underRe : Bool := rechecked && !(admissible op.cfg2 op.tx.fee op.tx.gas op.tx.top ds)
+  let underNew : Bool := !(admissible cfgA op.tx.fee op.tx.gas op.tx.top ds)
+  let underRe : Bool := rechecked && !(admissible cfgB op.tx.fee op.tx.gas op.tx.top ds)
   if o.check ≠ "ok" then
     -- rejected by the mempool check ⇒ never charged
     if o.cchg ≠ "-/-" then "fail:mempool_reject_charged"
@@ -277,6 +350,21 @@ def verdict (op : Op) (o : Observed) : String :=
           else if o.seq ≠ "1" then "fail:success_sequence"
           else "ok"
     else "-"
+
+/-- The transaction clauses first; when they have nothing to object to, the configuration the
+implementation READS BACK must be the reference one: the floor price the chain was set up with
+(no governance message names it), and params / schedule changed exactly as voted. -/
+def verdict (op : Op) (o : Observed) : String :=
+  let v := verdictTx op o
+  if v.startsWith "fail:" then v
+  else
+    let cfgA := refCfgA op o
+    let cfgB := refCfgB op o
+    if dumpFloor o.cfg ≠ dumpFloor (showCfg cfgA) then "fail:floor_price_not_the_configured_one"
+    else if o.cfg ≠ showCfg cfgA then "fail:fee_config_not_as_voted"
+    else if o.cfg2 ≠ "-" ∧ dumpFloor o.cfg2 ≠ dumpFloor (showCfg cfgB) then "fail:floor_price_not_the_configured_one"
+    else if o.cfg2 ≠ "-" ∧ o.cfg2 ≠ showCfg cfgB then "fail:fee_config_not_as_voted"
+    else v
 
 def stepOp (ws : List String) (impl : Option String) : String × String :=
   match parseOp ws with
